@@ -38,8 +38,15 @@ def showEv : Ev → String
   | .tclose k => s!"C:{k.name}"
   | .raised e => s!"X:{e.name}"
 
+/-- consecutive writes are shown as one (the harness cannot tell where one `transport.write` ends and the next begins) -/
+def joinWrites : List Ev → List Ev
+  | .written a :: .written b :: rest => joinWrites (.written (a ++ b) :: rest)
+  | e :: rest => e :: joinWrites rest
+  | [] => []
+termination_by l => l.length
+
 def showEvs (l : List Ev) : String :=
-  if l.isEmpty then "-" else ";".intercalate (l.map showEv)
+  if l.isEmpty then "-" else ";".intercalate ((joinWrites l).map showEv)
 
 def showPSt : Option PSt → String
   | some p => s!"buf={Hex.render p.buf} hdr={match p.hdr with | some (k, l) => s!"{k}/{l}" | none => "-"}"
@@ -103,7 +110,7 @@ def handle : List String → Option String
       let m ← m.toNat?; let n ← n.toNat?
       pure (match sendGuardSpec m n with
         | some e => s!"error {e.name}"
-        | none => s!"sent {Hex.render (be32enc n)}")
+        | none => s!"sent {Hex.render (frameHeader 0 n)}")
   | ["rs.exp", n] => do
       let n ← n.toNat?
       pure s!"{twAnnounceExp n} {twMaxRecv n}"
